@@ -379,7 +379,7 @@ func buildExpressionEx(input map[string]interface{}, depth int) (string, bool, e
 // fractional part when the value is integral but beyond int64, where an integer literal would not build.
 func formatNumber(v float64) string {
 	s := strconv.FormatFloat(v, 'f', -1, 64)
-	if (v >= 9223372036854775808.0 || v < -9223372036854775808.0) && !strings.Contains(s, ".") {
+	if (v >= 9223372036854775808.0 || v <= -9223372036854775808.0) && !strings.Contains(s, ".") {
 		s += ".0"
 	}
 
